@@ -126,6 +126,8 @@ type Run struct {
 	kfHits   map[string]int64
 	kfSample map[string]Failure
 	counters map[string]int64
+	sigCount map[string]int64
+	sigSeen  map[string]int
 	notes    []string
 }
 
@@ -136,7 +138,8 @@ func NewRun(id, tier, level string, budget time.Duration) *Run {
 	r := &Run{ID: id, Tier: tier, Seed: seed, Level: level, start: time.Now(),
 		Distinct: NewHashSet(), Outcomes: NewHashSet(),
 		Extra: map[string]interface{}{}, kfHits: map[string]int64{},
-		kfSample: map[string]Failure{}, counters: map[string]int64{}}
+		kfSample: map[string]Failure{}, counters: map[string]int64{},
+		sigCount: map[string]int64{}, sigSeen: map[string]int{}}
 	if b := os.Getenv("VERIF_BUDGET_S"); b != "" {
 		if f, err := strconv.ParseFloat(b, 64); err == nil {
 			budget = time.Duration(f * float64(time.Second))
@@ -224,7 +227,9 @@ func (r *Run) Fail(f Failure) {
 		}
 	}
 	r.nfail++
-	if len(r.failures) < 4000 {
+	r.sigCount[f.Sig]++
+	if r.sigSeen[f.Sig] < 200 || len(r.failures) < 4000 {
+		r.sigSeen[f.Sig]++
 		r.failures = append(r.failures, f)
 	}
 }
@@ -251,6 +256,20 @@ func (r *Run) Finish(exhaustive bool, replay Replayer) int {
 	r.mu.Unlock()
 	sort.SliceStable(fails, func(i, j int) bool { return fails[i].Size < fails[j].Size })
 
+	if os.Getenv("VERIF_DUMP") != "" {
+		per := map[string]int{}
+		var sb []byte
+		for _, f := range fails {
+			if per[f.Sig] >= 25 {
+				continue
+			}
+			per[f.Sig]++
+			raw, _ := json.Marshal(f.Case)
+			sb = append(sb, []byte(fmt.Sprintf("%s\t%s\t%s\n", f.Sig, f.Detail, raw))...)
+		}
+		os.MkdirAll(filepath.Join(VerifDir, "scratch"), 0o755)
+		os.WriteFile(filepath.Join(VerifDir, "scratch", r.ID+".failures.tsv"), sb, 0o644)
+	}
 	// Re-execute each reported violation from its serialised form first.
 	type rep struct {
 		path string
@@ -263,7 +282,7 @@ func (r *Run) Finish(exhaustive bool, replay Replayer) int {
 		if len(reported) >= 8 {
 			break
 		}
-		if seenSig[f.Sig+"|"+shortDetail(f.Detail)] >= 2 {
+		if seenSig[f.Sig] >= 3 || seenSig[f.Sig+"|"+shortDetail(f.Detail)] >= 2 {
 			continue
 		}
 		raw, err := json.Marshal(f.Case)
@@ -281,6 +300,7 @@ func (r *Run) Finish(exhaustive bool, replay Replayer) int {
 			}
 		}
 		seenSig[f.Sig+"|"+shortDetail(f.Detail)]++
+		seenSig[f.Sig]++
 		sum := sha1.Sum(raw)
 		dir := filepath.Join(VerifDir, "replays", r.ID)
 		os.MkdirAll(dir, 0o755)
@@ -333,6 +353,9 @@ func (r *Run) Finish(exhaustive bool, replay Replayer) int {
 		kfOut = append(kfOut, map[string]interface{}{"id": id, "instances": r.kfHits[id], "simplest_case": s.Case, "detail": s.Detail})
 	}
 	cov["known_findings"] = kfOut
+	if len(r.sigCount) > 0 {
+		cov["violation_signatures"] = r.sigCount
+	}
 	if len(stale) > 0 {
 		cov["stale_findings"] = stale
 	}
@@ -367,7 +390,7 @@ func (r *Run) Finish(exhaustive bool, replay Replayer) int {
 		fmt.Printf("  signature=%q %s\n", rp.f.Sig, rp.f.Detail)
 	}
 	if r.nfail > 0 {
-		fmt.Printf("property=%s violations=%d (showing %d)\n", r.ID, r.nfail, len(reported))
+		fmt.Printf("property=%s violations=%d (showing %d) by signature: %v\n", r.ID, r.nfail, len(reported), r.sigCount)
 		if len(reported) == 0 {
 			// every failing case failed to replay: harness problem, not a verdict
 			return 3
